@@ -119,6 +119,21 @@ func alterWare(c *Ctx, stored []byte, mut string, other []byte) []byte {
 			h := &tar.Header{Name: "./zz-added", Typeflag: tar.TypeReg, Mode: 0644, ModTime: hs[0].ModTime}
 			return append(hs, h), append(bs, []byte("extra"))
 		}))
+	case "addabs": // an added entry with an absolute name (regular file, directory or symlink): no fileset has such an entry
+		return gz(retar(raw, func(hs []*tar.Header, bs [][]byte) ([]*tar.Header, [][]byte) {
+			h := &tar.Header{Name: "/etc/zz-abs", Typeflag: tar.TypeReg, Mode: 0644, ModTime: hs[0].ModTime}
+			body := []byte("smuggled")
+			switch arg(1) % 3 {
+			case 1:
+				h, body = &tar.Header{Name: "/zz-abs-dir/", Typeflag: tar.TypeDir, Mode: 0755, ModTime: hs[0].ModTime}, nil
+			case 2:
+				h, body = &tar.Header{Name: "/zz-abs-link", Typeflag: tar.TypeSymlink, Linkname: "/etc/passwd", Mode: 0777, ModTime: hs[0].ModTime}, nil
+			}
+			if arg(2)%2 == 0 {
+				return append(hs, h), append(bs, body)
+			}
+			return append([]*tar.Header{hs[0], h}, hs[1:]...), append([][]byte{bs[0], body}, bs[1:]...)
+		}))
 	case "twomember", "twomember-same":
 		// a two-member gzip (RFC 1952: the stream is the concatenation): member 1 = the original entries without the
 		// end-of-archive blocks, member 2 = an added entry (or nothing) + end-of-archive
@@ -632,7 +647,7 @@ func fetchEngine(c *Ctx) {
 			fetchOverlap(c, fmt.Sprintf("fetch-overlap %s %s", fm, w))
 		}
 	}
-	muts := []string{"none", "recompress", "plain", "pad:2", "reorder", "flip", "flip", "flip", "trunc", "trunc", "truncgz", "substitute", "dropentry", "addentry", "addlink", "twomember", "twomember-same", "adddir", "modattr", "modattr", "modattr-ns", "modcontent"}
+	muts := []string{"none", "recompress", "plain", "pad:2", "reorder", "flip", "flip", "flip", "trunc", "trunc", "truncgz", "substitute", "dropentry", "addentry", "addabs", "addabs", "addlink", "twomember", "twomember-same", "adddir", "modattr", "modattr", "modattr-ns", "modcontent"}
 	modes := []string{"direct", "copy", "none", "mount"}
 	for k := 0; k < n; k++ {
 		fsx := c.GenFileset(GenOpts{MaxEntries: 7, Kinds: "fffdLp", SubSecond: false, BigIds: false, Setid: false, MaxContent: 1500})
@@ -654,6 +669,8 @@ func fetchEngine(c *Ctx) {
 				mut = fmt.Sprintf("dropentry:%d", c.Intn(50))
 			case "addlink":
 				mut = fmt.Sprintf("addlink:%d", c.Intn(50))
+			case "addabs":
+				mut = fmt.Sprintf("addabs:%d:%d", c.Intn(3), c.Intn(2))
 			}
 			mode := modes[c.Intn(4)]
 			if m == "modattr-ns" && k < 2 {
